@@ -12,19 +12,19 @@ from . import c15_canon as canon
 
 
 
-def plugin_sx(c):
-    return {"S": [Sym("shorter"), "fragments"], "E": [Sym("extract"), "operations"],
-            "F": Sym("forward"), "N": Sym("noreimports"), "I": Sym("identity")}[c]
+def plugin_sx(c, frag="fragments", ops="operations", variant="forward"):
+    return {"S": [Sym("shorter"), frag], "E": [Sym("extract"), ops],
+            "F": Sym(variant), "N": Sym("noreimports"), "I": Sym("identity")}[c]
 
 
-def real_canonical(files):
+def real_canonical(files, ops_mod="operations"):
     c = canon.client_of(files["client.py"], complete=False)
     out = {"client": canon.canonical_client(canon.sx_plain(canon.client_sexp(c)), cleanup=False)}
     ii, ia = canon.init_of(files.get("__init__.py", ""))
     out["init"] = None if (not ii and ia is None) else canon.canonical_init(ii, ia)
     out["operations"] = None
-    if "operations.py" in files:
-        consts, all_ = canon.operations_of(files["operations.py"])
+    if ops_mod + ".py" in files:
+        consts, all_ = canon.operations_of(files[ops_mod + ".py"])
         out["operations"] = {"consts": [list(x) for x in consts], "all": all_}
     return out, c["other"]
 
@@ -155,18 +155,24 @@ def first_difference(a, b, path="$"):
 
 
 def run(ctx, cases):
+    from . import c15 as k3mod
+
     run = ctx.run
     cmds, meta = [], []
     for case in cases:
         base_files = case.files[""]
         try:
-            enc = canon.encode_unplugged(base_files, case.ops, scen.method_name)
+            enc = canon.encode_unplugged(base_files, case.ops, scen.method_name, fragments_module=k3mod.frag_module(case.sc))
         except Exception as exc:  # noqa
             run.broken("K1 canonicaliser", f"unplugged package of seed {case.sc.seed} unreadable: {type(exc).__name__}: {exc}")
             continue
         for cfg in case.configs:
-            cmds.append([Sym("generate"), [plugin_sx(c) for c in cfg], enc])
-            meta.append((case, cfg, "model"))
+            # two variants of ClientForwardRefs: the code as found fails when no annotation name is stringified
+            # (empty `if TYPE_CHECKING:` block), the proposed fix skips the block
+            for variant in (("forward", "forward-skip-empty") if "F" in cfg else ("forward",)):
+                cmds.append([Sym("generate"), [plugin_sx(c, k3mod.frag_module(case.sc), k3mod.ops_module(case.sc), variant)
+                                                for c in cfg], enc])
+                meta.append((case, cfg, variant))
     results = model.batch("C15", cmds, chunk=8) if cmds else []
     names_by_case = reserved_names(ctx, cases)
     verdict = {}
@@ -174,7 +180,8 @@ def run(ctx, cases):
         key = (id(case), cfg)
         if key not in verdict:
             try:
-                real, other = real_canonical(case.files[cfg]) if case.gen[cfg].ok else ("fails", [])
+                real, other = (real_canonical(case.files[cfg], k3mod.ops_module(case.sc)) if case.gen[cfg].ok
+                               else ("fails", []))
             except Exception as exc:  # noqa
                 verdict[key] = {"case": case, "cfg": cfg, "real_error": f"{type(exc).__name__}: {exc}", "variants": {}}
                 continue
@@ -217,6 +224,15 @@ def run(ctx, cases):
         if v["real"] == "fails" and oks:
             # both sides refuse: generation with this plugin list crashes, as the faithful model predicts
             run.dist("k1", "agree-on-failure")
+            if "F" in cfg:
+                run.finding(k3mod.EMPTY_TC, f"K1: model (code as found) and generator both fail for {cfg!r}: empty TYPE_CHECKING block",
+                            {"seed": case.sc.seed, "configuration": cfg})
+        if "F" in cfg and oks:
+            run.dist("k1_forward_refs_variant", "+".join(sorted(oks)))
+        if not oks and case.sc.notes.get("legacy_section") and "S" in cfg:
+            run.finding(k3mod.LEGACY, f"K1: with the legacy section ShorterResults does not see fragments_module_name ({cfg!r})",
+                        {"seed": case.sc.seed, "configuration": cfg, "differences": v["variants"]})
+            continue
         if not oks:
             run.violation(f"K1: model and generator disagree for plugins {cfg!r} (seed {case.sc.seed}): "
                           + json.dumps(v["variants"])[:900],
